@@ -173,8 +173,12 @@ func genSrs(r *rand.Rand, mode int) srsSpec {
 	switch mode {
 	case 0: // an id of its own
 		id := []int{28992, 3035, 25831, 900913, 100000 + r.Intn(1000)}[r.Intn(5)]
+		orgID := id
+		if r.Intn(3) == 0 { // srs_id is a file-local key: the organisation's own code may differ from it
+			orgID = []int{28992, 7415, 1, id + 1}[r.Intn(4)]
+		}
 		return srsSpec{Name: fmt.Sprintf("srs %d name", id), ID: id, Org: []string{"EPSG", "epsg", "NONE", "custom org"}[r.Intn(4)],
-			OrgID: id, Def: fmt.Sprintf(`PROJCS["definition of %d",UNIT["metre",1]] %d`, id, r.Intn(1000)), Desc: []string{"", "a description", "ünï"}[r.Intn(3)]}
+			OrgID: orgID, Def: fmt.Sprintf(`PROJCS["definition of %d",UNIT["metre",1]] %d`, id, r.Intn(1000)), Desc: []string{"", "a description", "ünï"}[r.Intn(3)]}
 	case 1: // an id the library pre-seeds, with the library's content
 		id := []int{3857, 4326, 0, -1}[r.Intn(4)]
 		s, _ := knownSrsSpec(id)
